@@ -256,6 +256,16 @@ type mwReturn struct {
 	reply   ssa.Value
 	detail  string
 	msgPath string // access path of the message parameter in fn
+	// in: the returned triple is built by a private helper (`return reject(id, …)`);
+	// values of the reply are the helper's, read through this call
+	in *ssa.CallCommon
+}
+
+func (r mwReturn) pathOf(v ssa.Value) string {
+	if r.in != nil {
+		return an.PathOfIn(v, r.in)
+	}
+	return an.PathOf(v)
 }
 
 // classifyClientReturns classifies the returns of a ServeNostrClientMsg-shaped
@@ -286,17 +296,36 @@ func classifyClientReturns(P *core.Program, fn *ssa.Function, msgParam int, dept
 				}
 			}
 		}
-		fwd, fok := chanContents(fn, res[0])
+		// a private helper that only builds the result triple from its arguments
+		host := fn
+		if ex, ok := res[0].(*ssa.Extract); ok && ex.Index == 0 {
+			if call, ok := ex.Tuple.(*ssa.Call); ok {
+				if g := an.StaticCallee(&call.Call); an.PrivateHelper(g) && g.Signature.Results().Len() == len(res) && len(an.ReturnBlocks(g)) == 1 && len(g.Params) == len(call.Call.Args) {
+					whole := true
+					for i := range res {
+						if e2, ok := res[i].(*ssa.Extract); !ok || e2.Tuple != ssa.Value(call) || e2.Index != i {
+							whole = false
+						}
+					}
+					if whole {
+						res = an.ReturnValues(an.LastInstr(an.ReturnBlocks(g)[0]).(*ssa.Return))
+						host = g
+						mr.in = &call.Call
+					}
+				}
+			}
+		}
+		fwd, fok := chanContents(host, res[0])
 		nilFwd := an.IsNilConst(an.Unwrap(res[0]))
 		errNil := an.IsNilConst(res[len(res)-1])
 		var rej []ssa.Value
 		rok, nilRej := false, true
 		if len(res) == 3 {
-			rej, rok = chanContents(fn, res[1])
+			rej, rok = chanContents(host, res[1])
 			nilRej = an.IsNilConst(an.Unwrap(res[1]))
 		}
 		switch {
-		case fok && nilRej && errNil && len(fwd) == 1 && an.PathOf(fwd[0]) == msgPath:
+		case fok && nilRej && errNil && len(fwd) == 1 && mr.pathOf(fwd[0]) == msgPath:
 			mr.kind = "forward"
 		case len(res) == 3 && nilFwd && rok && errNil && len(rej) == 1:
 			mr.kind, mr.reply = "reject", rej[0]
@@ -393,7 +422,8 @@ func assertedType(fn *ssa.Function, b *ssa.BasicBlock, msgPath string) string {
 }
 
 // checkReply: reply constructor matches the message type and carries its id.
-func checkReply(P *core.Program, reply ssa.Value, msgType, msgPath string) (bool, string) {
+func checkReply(P *core.Program, r mwReturn, msgType string) (bool, string) {
+	reply, msgPath := r.reply, r.msgPath
 	call := an.CallOf(reply)
 	if call == nil {
 		// a local holding the constructor's result
@@ -412,20 +442,20 @@ func checkReply(P *core.Program, reply ssa.Value, msgType, msgPath string) (bool
 		if !isConstBool(call.Call.Args[1], false) {
 			return false, "rejecting OK is not 'false'"
 		}
-		if got := an.PathOf(call.Call.Args[0]); got != msgPath+".Event.ID" {
+		if got := r.pathOf(call.Call.Args[0]); got != msgPath+".Event.ID" {
 			return false, "OK carries " + got + ", want " + msgPath + ".Event.ID"
 		}
 	case "ClientReqMsg", "ClientCountMsg":
 		if short != "NewServerClosedMsg" && short != "NewServerClosedMsgf" {
 			return false, msgType + " rejected with " + short + ", want NewServerClosedMsg[f](subID, …)"
 		}
-		if got := an.PathOf(call.Call.Args[0]); got != msgPath+".SubscriptionID" {
+		if got := r.pathOf(call.Call.Args[0]); got != msgPath+".SubscriptionID" {
 			return false, "CLOSED carries " + got + ", want " + msgPath + ".SubscriptionID"
 		}
 	default:
 		return false, "rejection of a message of type " + msgType + " (only EVENT, REQ and COUNT have a protocol rejection)"
 	}
-	return true, short + "(" + an.PathOf(call.Call.Args[0]) + ", …)"
+	return true, short + "(" + r.pathOf(call.Call.Args[0]) + ", …)"
 }
 
 func runMwRejectType(c *core.Ctx) {
@@ -444,7 +474,7 @@ func runMwRejectType(c *core.Ctx) {
 			mt := assertedType(r.fn, r.ret.Block(), r.msgPath)
 			idx[mt]++
 			construct := fmt.Sprintf("reject[%s]#%d", mt, idx[mt])
-			ok, why := checkReply(P, r.reply, mt, r.msgPath)
+			ok, why := checkReply(P, r, mt)
 			c.Check(ok, props, b.name, construct, P.Pos(r.ret.Pos()), why, why)
 		}
 	}
@@ -632,7 +662,19 @@ func runMwBound(c *core.Ctx) {
 				var pred *ssa.Function
 				for _, g := range an.Guards(fn, r.Block()) {
 					call, ok := g.V.(*ssa.Call)
-					if !ok || !g.True || !strings.HasPrefix(an.CalleeName(&call.Call), "slices.ContainsFunc") {
+					if !ok || !g.True {
+						continue
+					}
+					// the test may be wrapped in a private predicate helper: exceeds(msg.ReqFilters)
+					if h := an.StaticCallee(&call.Call); an.PrivateHelper(h) && len(an.ReturnBlocks(h)) == 1 {
+						rv := an.ReturnValues(an.LastInstr(an.ReturnBlocks(h)[0]).(*ssa.Return))
+						if inner, isCall := rv[0].(*ssa.Call); isCall && strings.HasPrefix(an.CalleeName(&inner.Call), "slices.ContainsFunc") &&
+							an.PathOfIn(inner.Call.Args[0], &call.Call) == msgPath+".ReqFilters" {
+							pred = funcValue(inner.Call.Args[1])
+						}
+						continue
+					}
+					if !strings.HasPrefix(an.CalleeName(&call.Call), "slices.ContainsFunc") {
 						continue
 					}
 					if an.PathOf(call.Call.Args[0]) == msgPath+".ReqFilters" {
